@@ -6,7 +6,7 @@ spec:   Cdc       Part 1: the contracts of FFSynchronizer / AsyncFFSynchronizer+
                   of {input-clock edge, output-clock edge, both, input change, async assert/release, reset}.
         CdcTrace  deterministic monitors built from Cdc's operators; judge executions of the real classes.
 stages: mc        TLC: models => contracts (full histories/counters to depth 10/14, and the complete finite graphs),
-                  the pulse-spacing assumption as an enabling condition; 8 mutants that must violate
+                  the pulse-spacing assumption as an enabling condition; 4 (thorough: 8) mutants that must violate
         tours     every edge of the small model graphs replayed on the real primitives in pysim (spec -> code)
         random    seeded random schedules on larger parameters (code -> spec)
         binding   corrupted recorded traces must be rejected
@@ -39,10 +39,29 @@ INV = {
     "async": ["AsyncContract", "AsyncCounts"],
     "pulse": ["PulseContract", "PulseConservation", "PulseInflight", "PulseQuiescent", "PulseOutputSeen"],
 }
-PROPS = {"ff": [], "async": ["AsyncImmediate", "AsyncNoSpontaneous"], "pulse": []}
+PROPS = {"ff": ["UnrelatedInvisible"], "async": ["AsyncImmediate", "AsyncNoSpontaneous", "UnrelatedInvisible"],
+         "pulse": ["UnrelatedInvisible"]}
 CONTRACT = {"ff": "FFLatency", "async": "AsyncContract", "pulse": "PulseContract"}
-ACTIONS = {"ff": ["OEdge", "SetInput", "SetReset"], "async": ["OEdge", "AsyncAssert", "AsyncRelease"],
-           "pulse": ["IEdge", "OEdge", "BothEdges", "SetInput"]}
+ACTIONS = {"ff": ["OEdge", "SetInput", "SetReset", "Unrelated"],
+           "async": ["OEdge", "AsyncAssert", "AsyncRelease", "Unrelated"],
+           "pulse": ["IEdge", "OEdge", "BothEdges", "SetInput", "Unrelated"]}
+
+# the design family around the primitive (see cdc_drive): domain names other than the defaults, the defaults
+# themselves ("sync": parameter omitted), an unrelated active "sync" domain next to them, the input as an expression
+ENVS = {
+    "ff": [{}, dict(o_name="fast", sync=True), dict(o_name="sync", expr="not"), dict(o_name="sec", sync=True, expr="bit"),
+           dict(o_name="sync", expr="bit"), dict(o_name="o", sync=True, expr="not"), dict(o_name="sync")],
+    "async": [{}, dict(o_name="sec", sync=True, expr="rst"), dict(o_name="sec", sync=True, expr="rst_or"),
+              dict(o_name="sync", expr="not"), dict(o_name="fast", sync=True, expr="bit"), dict(o_name="sec", sync=True),
+              dict(o_name="sync"), dict(o_name="o", sync=True, expr="not"), dict(o_name="sync", expr="bit")],
+    "pulse": [{}, dict(i_name="slow", o_name="fast", sync=True), dict(i_name="sync", o_name="fast"),
+              dict(i_name="slow", o_name="sync"), dict(i_name="i", o_name="o", sync=True)],
+}
+ENVS["reset"] = ENVS["async"]
+
+
+def _envs(prim, i0):
+    return [e for e in ENVS[prim] if not (e.get("expr") == "rst" and i0)]
 
 TRACE_CFG = """SPECIFICATION Spec
 CHECK_DEADLOCK FALSE
@@ -112,6 +131,8 @@ def _walk_events(walk, inp0):
             cur = 1 - cur; evs.append((0, 0, cur, rst, via))
         elif name == "SetReset":
             rst = int(args[0]); evs.append((0, 0, cur, rst, 1))
+        elif name == "Unrelated":
+            evs.append((0, 0, cur, rst, 1))
         else:
             raise MachineryError("unknown action label %r" % lab)
     return evs
@@ -168,23 +189,31 @@ def run(ctx):
     # ---------------- random schedules on larger parameters (recorded first: fork pool before threads) -----
     n_ev, reps = (1000, 6) if th else (300, 1)
     rjobs = []
+    nenv = {"ff": 0, "pulse": 0}
+
+    def add(spec, cycle=None):
+        if cycle is not None:
+            es = _envs(cycle, spec.get("i0", 0))
+            spec.update(es[nenv[cycle] % len(es)])
+            nenv[cycle] += 1
+        spec["nseed"] = ctx.rng.getrandbits(32)
+        rjobs.append((spec, n_ev, ctx.rng.getrandbits(48)))
     for rep in range(reps):
         for s in (2, 3, 4, 5):
             for w in (1, 2, 5):
                 mask = (1 << w) - 1
                 for init in sorted({0, mask, ctx.rng.getrandbits(w) | 1}):
                     for rl in both:
-                        spec = dict(prim="ff", stages=s, width=w, init=init, reset_less=rl, i0=ctx.rng.getrandbits(w))
-                        rjobs.append((spec, n_ev, ctx.rng.getrandbits(48)))
+                        add(dict(prim="ff", stages=s, width=w, init=init, reset_less=rl, i0=ctx.rng.getrandbits(w)), "ff")
             for e in ("pos", "neg"):
                 for prim in (("async", "reset") if e == "pos" else ("async",)):
-                    for k in range(2):
-                        spec = dict(prim=prim, stages=s, edge=e, i0=ctx.rng.getrandbits(1))
-                        rjobs.append((spec, n_ev, ctx.rng.getrandbits(48)))
+                    for env in ENVS[prim]:
+                        i0 = 0 if env.get("expr") == "rst" else ctx.rng.getrandbits(1)
+                        add(dict(prim=prim, stages=s, edge=e, i0=i0, **env))
             for k in range(7):
-                rjobs.append((dict(prim="pulse", stages=s, i0=0), n_ev, ctx.rng.getrandbits(48)))
-    # FFSynchronizer defaults (init / reset_less not given)
-    rjobs.append((dict(prim="ff", stages=2, width=3, i0=5), n_ev, ctx.rng.getrandbits(48)))
+                add(dict(prim="pulse", stages=s, i0=0), "pulse")
+    # FFSynchronizer defaults (init / reset_less / o_domain not given)
+    add(dict(prim="ff", stages=2, width=3, i0=5, o_name="sync"))
     rtraces = pmap(_random_job, rjobs, chunksize=2)
     rmeta = [{"spec": spec, "driver": "random", "seed": seed, "n": n} for spec, n, seed in rjobs]
 
@@ -192,13 +221,16 @@ def run(ctx):
     jobs = [   # (stage, cfg, expected violation, prims, dump)
         ("mc/ff-hist-d%d-d%d" % (D1, D2), cfg(["ff"], S, (1, 2), rls=both if th else (False,), depth=D1, depth2=D2), None, ["ff"], None),
         ("mc/ff-graph", cfg(["ff"], S, (1, 2), rls=both), None, ["ff"], None),
-        ("mc/async-graph", cfg(["async"], S, edges=("pos", "neg")), None, ["async"], None),
         ("mc/pulse-hist-d%d" % D1, cfg(["pulse"], S, spacings=("strict", "weak"), depth=D1), None, ["pulse"], None),
-        ("mc/pulse-graph", cfg(["pulse"], S, spacings=("strict", "weak")), None, ["pulse"], None),
+        ("mc/async-pulse-graph", cfg(["async", "pulse"], S, edges=("pos", "neg"), spacings=("strict", "weak")), None,
+         ["async", "pulse"], None),
     ]
     muts = [("ff", "short_chain", {}), ("ff", "bad_init_last", {}),
             ("async", "short_chain", {}), ("async", "edge_inverted", {"edges": ("neg",)}), ("async", "sync_assert", {}),
             ("pulse", "no_xor", {}), ("pulse", "short_chain", {}), ("pulse", "", {"spacings": ("none",)})]
+    if not th:      # quick: one seeded error per primitive + the necessity of the spacing assumption
+        muts = [x for x in muts if (x[0], x[1]) in (("ff", "short_chain"), ("async", "edge_inverted"), ("pulse", "no_xor"),
+                                                    ("pulse", ""))]
     for prim, mu, kw in muts:
         jobs.append(("mc/mutant-%s-%s" % (prim, mu or "no-spacing-assumption"),
                      cfg([prim], [3], mutant=mu, only_contract=True, **kw), CONTRACT[prim], [prim], None))
@@ -222,6 +254,7 @@ def run(ctx):
 
     # ---------------- tours: every edge of the model graphs on the real primitives -----------------
     djobs, tmeta = [], []
+    n_env = 0
     for j in jobs:
         if not j[4]:
             continue
@@ -233,16 +266,23 @@ def run(ctx):
         for init, w in walks:
             st0 = g.state(init)
             for sp in _spec_of(st0["cf"]):
-                spec = dict(sp)
-                spec["i0"] = int(st0["inp"])
-                if spec["prim"] == "pulse" and spec["i0"]:
+                i0 = int(st0["inp"])
+                if sp["prim"] == "pulse" and i0:
                     # PulseSynchronizer.i starts at 0: reach the model's initial state by one input change
-                    spec["i0"] = 0
+                    i0 = 0
                     evs = [(0, 0, 1, 0, 0)] + _walk_events(w, 1)
                 else:
-                    evs = _walk_events(w, spec["i0"])
-                djobs.append((spec, evs))
-                tmeta.append({"spec": spec, "driver": "tour", "graph": j[0], "events": evs})
+                    evs = _walk_events(w, i0)
+                es = _envs(sp["prim"], i0)
+                if sp["prim"] in ("async", "reset"):
+                    use = es                                   # few, short walks: every member of the family
+                else:
+                    use = [es[n_env % len(es)]]                # many walks: the family in rotation
+                    n_env += 1
+                for env in use:
+                    spec = dict(sp, i0=i0, nseed=len(djobs), **env)
+                    djobs.append((spec, evs))
+                    tmeta.append({"spec": spec, "driver": "tour", "graph": j[0], "events": evs})
     n_tour = len(djobs)
     if n_tour < 20:
         raise MachineryError("vacuous: only %d tour walks" % n_tour)
@@ -286,7 +326,8 @@ def run(ctx):
             sp = mt["spec"]
             if str(clause).startswith("ASSUMPTION"):
                 raise MachineryError("generator left the domain of the property: %s at step %d of %r" % (clause, step, mt))
-            key = {"prim": sp["prim"], "stages": sp["stages"], "clause": clause}
+            key = {"prim": sp["prim"], "stages": sp["stages"], "clause": clause, "input": sp.get("expr", "sig"),
+                   "o_domain": sp.get("o_name", "o"), "unrelated_sync": bool(sp.get("sync"))}
             if sp["prim"] == "ff":
                 key.update(width=sp.get("width", 1), reset_less=bool(sp.get("reset_less", True)))
             if sp["prim"] == "async":
@@ -319,6 +360,10 @@ def run(ctx):
                "harness source register clocked in the same event (a testbench-driven signal changed in the same "
                "ctx.set as the clock that samples it is a pysim testbench race: seen with its NEW value; not generated)")
     ctx.assume("the output domain's reset changes only in events without an output-clock edge")
+    ctx.assume("design family: output/input domains named o/i, fast/slow, sec, or the default sync; with or without an "
+               "unrelated active sync domain (own clock, reset, counter); input = Signal, ~x, slice of a wider signal, "
+               "ResetSignal('sync'), ResetSignal('sync') | req (the last two for AsyncFFSynchronizer/ResetSynchronizer); "
+               "the trace records the value of the input expression")
     ctx.assume("PulseSynchronizer: an input pulse = an input-clock edge with the input high before the event; consecutive "
                "input pulses are separated by an output-clock edge in an event strictly between them (re-checked by "
                "CdcTrace); an answer must come at the stages-th or (stages+1)-th output-clock edge after the pulse")
